@@ -495,3 +495,21 @@ package shimagent
 //@     typeof(result0) == *Server && pl(result0) == ret(newShimAgent, n0, 0) && pl(result0) != 0)
 //@   ensures [comparator-always-set] result1 == nil ==> result0.(*Server).pubKeyComp != nil
 //@   ensures [invariants-established] result1 == nil ==> (inv(result0.(*Server)) && inv2(result0.(*Server)) && condsOK(result0.(*Server)) && unheld(result0.(*Server)) && !result0.(*Server).locked)
+
+//@ # ---------------------------------------------------------------- C10: the signer wrapper of an in-memory certificate signs with the plain key it certifies
+//@ func (signer).PublicKey(s)
+//@   ensures typeof(result) == *certificate && pl(result) == s.cert
+
+//@ func (signer).Sign(s, arg1, data)
+//@   requires s.agent != nil && s.cert != nil && s.cert.Certificate != nil
+//@   let a0 = old(calls(Agent.Sign))
+//@   ensures [signs-with-the-certified-key] calls(Agent.Sign) == a0 + 1 && arg(Agent.Sign, a0, 0) == s.agent && arg(Agent.Sign, a0, 1) == s.cert.Certificate.Key &&
+//@     arg(Agent.Sign, a0, 2) == data && result0 == ret(Agent.Sign, a0, 0) && result1 == ret(Agent.Sign, a0, 1)
+
+//@ func (signer).SignWithAlgorithm(s, arg1, data, algorithm)
+//@   requires s.agent != nil && s.cert != nil && s.cert.Certificate != nil
+//@   let a0 = old(calls(ExtendedAgent.SignWithFlags))
+//@   ensures [signs-with-the-certified-key-and-the-flag-of-the-algorithm] calls(ExtendedAgent.SignWithFlags) == a0 + 1 && arg(ExtendedAgent.SignWithFlags, a0, 0) == s.agent &&
+//@     arg(ExtendedAgent.SignWithFlags, a0, 1) == s.cert.Certificate.Key && arg(ExtendedAgent.SignWithFlags, a0, 2) == data &&
+//@     arg(ExtendedAgent.SignWithFlags, a0, 3) == (algorithm == "rsa-sha2-256" ? 2 : (algorithm == "rsa-sha2-512" ? 4 : 0)) &&
+//@     result0 == ret(ExtendedAgent.SignWithFlags, a0, 0) && result1 == ret(ExtendedAgent.SignWithFlags, a0, 1)
